@@ -68,3 +68,9 @@ Fixpoint drop_cp (n : nat) (s : string) : string :=
 (* one-character str arguments (delimiter, quotechar) *)
 Definition ascii_of_string1 (s : string) : ascii :=
   match s with String c _ => c | EmptyString => zero end.
+
+(* ---- what DataMatrix.is_2d sees of a column object: the value of its `depth` attribute when the object has
+   one (series columns of ANY depth, 0 included), None when it has none (Mixed / Float / Int columns) ---- *)
+Definition colobj : Type := option Z.
+Definition col_hasattr_depth (c : colobj) : bool :=
+  match c with Some _ => true | None => false end.
